@@ -14,6 +14,11 @@ Executable model (no Mathlib) of the *control flow* of
   weasyprint/text/fonts.py      `FontConfiguration.add_font_face` (the `src` loop)
   weasyprint/pdf/anchors.py     `write_pdf_attachment`, the attachment cache of `add_annotations`
 
+State after the repairs of round 3: the cache key of `get_image_from_uri` holds the image options (bca20a5), an image
+Pillow opens but cannot re-encode is an `ImageLoadingError` (d7dc388: `rasterInit` returns `Except`), the `media`
+attribute of `<style>` / `<link>` is lower-cased (b7ca8f6).  `layout_box_backgrounds` and `DiskCache` are in
+`Model/ResourcesBg.lean`.
+
 The code that exists is modelled, quirks included.  What third-party code says about a byte string
 (does `ElementTree.fromstring` accept it, does Pillow open it, with which format / mode, does
 fontconfig accept the font file) is a *parameter* (`Content`): the harness obtains it by calling
@@ -44,6 +49,8 @@ structure Pil where
   mode : String            -- `Image.mode`
   hasExif : Bool           -- `'exif' in image.info`
   hasTransparency : Bool   -- `'transparency' in image.info`
+  pngWritable : Bool       -- `image.save(file, format='PNG')` succeeds on the (converted, rotated) image; Pillow
+                           -- refuses some modes it can open (CMYK / float TIFF: `OSError: cannot write mode …`)
   deriving Repr, BEq, DecidableEq, Inhabited
 
 /-- What the css pipeline makes of a byte string read as a stylesheet is given separately (`Sheet`).
@@ -247,9 +254,17 @@ inductive Src where
   deriving Repr, BEq, DecidableEq, Inhabited
 
 structure Opts where
-  optimize : Bool          -- `options['optimize_images']`
-  jpegQuality : Bool       -- `options['jpeg_quality'] is not None`
+  optimize : Bool              -- `options['optimize_images']`
+  jpegQuality : Option Nat     -- `options['jpeg_quality']`
+  dpi : Option Nat             -- `options['dpi']`
   deriving Repr, BEq, DecidableEq, Inhabited
+
+/-- `f'{value}'` of an optional integer option. -/
+def pyOptNat : Option Nat → String
+  | some n => toString n
+  | Option.none => "None"
+
+def pyBool (b : Bool) : String := if b then "True" else "False"
 
 /-- `cache_image_data(data, filename)`: `if filename:`. -/
 def cacheImageData (filename : Option String) : Src :=
@@ -257,8 +272,8 @@ def cacheImageData (filename : Option String) : Src :=
   | some f => if f != "" then .lazyLocal f else .memOriginal
   | none => .memOriginal
 
-/-- `RasterImage.__init__`: `(self.format, self.image_data)`. -/
-def rasterInit (p : Pil) (o : Orient) (filename : Option String) (opts : Opts) : String × Src :=
+/-- `RasterImage.__init__`: `(self.format, self.image_data)`, or the exception of `pillow_image.save`. -/
+def rasterInit (p : Pil) (o : Orient) (filename : Option String) (opts : Opts) : Except Exc (String × Src) :=
   -- transposed: "Discard original data, as the image has been transformed"
   let haveData := !rotated o p
   let filename := if rotated o p then Option.none else filename
@@ -267,11 +282,14 @@ def rasterInit (p : Pil) (o : Orient) (filename : Option String) (opts : Opts) :
   let isJpeg := !converted && (p.format == "JPEG" || p.format == "MPO")
   let isPng := !converted && p.format == "PNG"
   if isJpeg then
-    if !haveData || opts.optimize || opts.jpegQuality then ("JPEG", .memReencoded)
-    else ("JPEG", cacheImageData filename)
+    if !haveData || opts.optimize || opts.jpegQuality.isSome then .ok ("JPEG", .memReencoded)
+    else .ok ("JPEG", cacheImageData filename)
   else
-    if !haveData || opts.optimize || !isPng then ("PNG", .memReencoded)
-    else ("PNG", cacheImageData filename)
+    if !haveData || opts.optimize || !isPng then
+      -- `pillow_image.save(image_file, format='PNG', optimize=optimize)`
+      if p.pngWritable then .ok ("PNG", .memReencoded)
+      else .error ⟨"OSError", "cannot write mode " ++ p.mode ++ " as PNG"⟩
+    else .ok ("PNG", cacheImageData filename)
 
 /-- An `Image` instance as far as the property is concerned. -/
 inductive Img where
@@ -285,8 +303,10 @@ structure Req where
   forcedMime : Option String      -- `forced_mime_type` (`None` and `''` are both falsy)
   deriving Repr, BEq, DecidableEq, Inhabited
 
-/-- `key = f'{url} {orientation}'`. -/
-def Req.key (r : Req) : String := r.url ++ " " ++ r.orient.render
+/-- `key = f'{url} {orientation} {options["optimize_images"]} {options["jpeg_quality"]} {options["dpi"]}'`. -/
+def Req.key (r : Req) (opts : Opts) : String :=
+  r.url ++ " " ++ r.orient.render ++ " " ++ pyBool opts.optimize ++ " " ++ pyOptNat opts.jpegQuality ++ " " ++
+    pyOptNat opts.dpi
 
 abbrev Cache := List (String × Option Img)
 
@@ -319,8 +339,10 @@ def decideImage (req : Req) (opts : Opts) (filename : Option String) (content : 
     -- "Try pillow for raster images, or for failing SVG"
     match content.pillow with
     | some p =>
-      let (fmt, src) := rasterInit p req.orient filename opts
-      .ok (.raster fmt src content.id)
+      -- `try: RasterImage(…) except Exception as exception: raise ImageLoadingError.from_exception(exception)`
+      match rasterInit p req.orient filename opts with
+      | .ok (fmt, src) => .ok (.raster fmt src content.id)
+      | .error e => .error ⟨"ImageLoadingError", if e.msg == "" then e.cls else e.cls ++ ": " ++ e.msg⟩
     | Option.none =>
       if isSvgMime then
         -- "Tried SVGImage then Pillow for a SVG, abort"
@@ -335,7 +357,7 @@ def decideImage (req : Req) (opts : Opts) (filename : Option String) (content : 
 /-- `get_image_from_uri`: new cache, events, and the returned image or the exception that escapes. -/
 def getImage (cache : Cache) (fetcher : Fetcher) (opts : Opts) (req : Req) :
     Cache × List Ev × Except Exc (Option Img) :=
-  match cache.find? req.key with
+  match cache.find? (req.key opts) with
   | some v => (cache, [], .ok v)
   | Option.none =>
     let (evs, fetched) := fetch (fetcher req.url) req.url (imageBody req)
@@ -343,20 +365,20 @@ def getImage (cache : Cache) (fetcher : Fetcher) (opts : Opts) (req : Req) :
       | .error e => .error e
       | .ok (filename, content, mime) => decideImage req opts filename content mime
     match outcome with
-    | .ok img => ((req.key, some img) :: cache, evs, .ok (some img))
+    | .ok img => ((req.key opts, some img) :: cache, evs, .ok (some img))
     | .error e =>
       -- `except (URLFetchingError, ImageLoadingError)`: log, `image = None`
-      if e.isUrlFetching || e.isImageLoading then ((req.key, Option.none) :: cache, evs, .ok Option.none)
+      if e.isUrlFetching || e.isImageLoading then ((req.key opts, Option.none) :: cache, evs, .ok Option.none)
       else (cache, evs, .error e)
 
-/-- A sequence of `get_image_from_uri` calls sharing one cache (each call wrapped separately: an
-escaping exception does not stop the sequence). -/
-def runImages (fetcher : Fetcher) (opts : Opts) :
-    Cache → List Req → List (List Ev × Except Exc (Option Img)) × Cache
+/-- A sequence of `get_image_from_uri` calls sharing one cache, each with its own options (one cache shared by
+several renders; each call wrapped separately: an escaping exception does not stop the sequence). -/
+def runImages (fetcher : Fetcher) :
+    Cache → List (Opts × Req) → List (List Ev × Except Exc (Option Img)) × Cache
   | cache, [] => ([], cache)
-  | cache, req :: rest =>
+  | cache, (opts, req) :: rest =>
     let (cache', evs, out) := getImage cache fetcher opts req
-    let (outs, final) := runImages fetcher opts cache' rest
+    let (outs, final) := runImages fetcher cache' rest
     ((evs, out) :: outs, final)
 
 /-! ### What is embedded at write time -/
@@ -577,11 +599,11 @@ def hasLinkType (rel : Option String) (linkType : String) : Bool :=
 def styleMime (typeAttr : Option String) : String :=
   String.ofList (stripChars (splitFirst ';' (typeAttr.getD "text/css").toList).1)
 
-/-- `[m.strip() for m in (element.get('media', '').strip() or 'all').split(',')]`. -/
+/-- `[m.strip().lower() for m in (element.get('media', '').strip() or 'all').split(',')]` (ASCII). -/
 def styleMedia (mediaAttr : Option String) : List String :=
   let raw := stripChars (mediaAttr.getD "").toList
   let raw := if raw.isEmpty then "all".toList else raw
-  (splitOnChar ',' raw).map (fun m => String.ofList (stripChars m))
+  (splitOnChar ',' raw).map (fun m => String.ofList ((stripChars m).map lowerChar))
 
 /-! ### urls.py `iri_to_uri` -/
 
